@@ -13,6 +13,7 @@
 
 mod emit;
 mod flow;
+mod layout;
 mod route;
 mod scan;
 mod util;
@@ -44,7 +45,7 @@ fn main() {
     let mut problems: Vec<String> = vec![];
     let builder = flow::extract_builder(&app_builder, &app, &mut problems);
     let wrapper = flow::extract_wrapper(&contracts, &mut problems);
-    let routing = route::extract_routing(&app, &contracts, &mut problems);
+    let routing = route::extract_routing(&app, &contracts, &src, &mut problems);
     let features = scan::feature_closure(&src.join("../Cargo.toml"), &["verif", "staking", "stargate", "cosmwasm_2_2"], &mut problems);
     let files = scan::all_sources(&src);
     let scanned = scan::scan_sources(&src, &files);
